@@ -5,6 +5,7 @@ import (
 	"encoding/json"
 	"math/rand"
 	"os"
+	"strings"
 
 	"github.com/benhoyt/goawk/verifharness/hx"
 )
@@ -16,12 +17,18 @@ import (
 // behaviour; it only keeps inside the domain the specification speaks about
 // (one name is used in one direction per run, the operand comes last, no
 // output to "-" / /dev/std* under NoFileWrites, no second print to the
-// command that never reads once something has been flushed to it).
+// command that never reads once something has been flushed to it; a file is
+// spelled in one way per run; print | "" only where NoExec refuses it; payloads
+// with newlines only in the default output mode; CRLF newlines likewise).
+// The richer inputs: every spelling of a path, /dev/null in both directions,
+// command lines that are empty / blank / start with blanks, operand lists
+// (operands that are not files, then a file, a missing file, a directory,
+// /dev/null, "-" or nothing), newline output modes x payload shapes.
 // Part of the traces are SESSIONS: two or three runs on one Interpreter, each
 // Execute with a configuration of its own (config events with cont = true).
 
 func actMap(a Act) map[string]any {
-	return map[string]any{"op": a.Op, "name": a.Name, "cls": a.Cls, "dest": a.Dest, "mode": a.Mode, "form": a.Form}
+	return map[string]any{"op": a.Op, "name": a.Name, "cls": a.Cls, "dest": a.Dest, "mode": a.Mode, "form": a.Form, "shape": a.Shape}
 }
 
 func pick(r *rand.Rand, xs ...string) string { return xs[r.Intn(len(xs))] }
@@ -32,8 +39,14 @@ func genRun(r *rand.Rand, sandbox bool, first bool) *Case {
 	c.Cfg.Custom = true
 	c.Cfg.WKind = "plain"
 	c.Cfg.OMode = "default"
+	c.Cfg.NLMode = "smart"
 	if !sandbox {
-		c.Cfg.OMode = pick(r, "default", "default", "csv", "tsv")
+		c.Cfg.OMode = pick(r, "default", "default", "default", "csv", "tsv")
+		if c.Cfg.OMode == "default" {
+			c.Cfg.NLMode = pick(r, "smart", "raw", "crlf", "crlf")
+		} else {
+			c.Cfg.NLMode = pick(r, "smart", "raw")
+		}
 	}
 	if sandbox {
 		c.Cfg.Custom = r.Intn(4) > 0
@@ -53,8 +66,13 @@ func genRun(r *rand.Rand, sandbox bool, first bool) *Case {
 	}
 	// direction of every name in this run
 	dir := map[string]string{}
-	for _, n := range []string{"f1", "f2", "f3", "cat", "cat3"} {
+	for _, n := range []string{"f1", "f2", "f3", "/dev/null", "cat", "cat3", "spcat"} {
 		dir[n] = pick(r, "out", "in")
+	}
+	// the spelling of every regular file in this run ("" = the plain absolute path)
+	spell := map[string]string{}
+	for _, n := range FileNames {
+		spell[n] = pick(r, "", "", "rel", "dotdot", "devdd")
 	}
 	if !sandbox && r.Intn(3) == 0 {
 		dir["exit3"] = "out"
@@ -67,17 +85,36 @@ func genRun(r *rand.Rand, sandbox bool, first bool) *Case {
 			inFiles = append(inFiles, n)
 		}
 	}
-	for _, n := range []string{"cat", "cat3"} {
+	if r.Intn(2) == 0 {
+		if dir["/dev/null"] == "out" {
+			outFiles = append(outFiles, "/dev/null")
+		} else {
+			inFiles = append(inFiles, "/dev/null")
+		}
+	}
+	for _, n := range []string{"cat", "cat3", "spcat"} {
+		if n == "spcat" && r.Intn(3) > 0 {
+			continue
+		}
 		if dir[n] == "out" {
 			outCmds = append(outCmds, n)
 		} else {
 			inCmds = append(inCmds, n)
 		}
 	}
+	// command lines without a command: read from (any run), written to only where NoExec refuses the attempt
+	if sandbox && r.Intn(3) == 0 {
+		b := pick(r, "empty", "blank")
+		if c.Cfg.NE && r.Intn(2) == 0 {
+			outCmds = append(outCmds, b)
+		} else {
+			inCmds = append(inCmds, b)
+		}
+	}
 	if dir["exit3"] == "out" {
 		outCmds = append(outCmds, "exit3")
 	}
-	sysCmds := []string{"cat", "cat3"}
+	sysCmds := []string{"cat", "cat3", "empty", "blank", "spcat"}
 	if !sandbox {
 		sysCmds = []string{"cat", "cat3", "showf1", "showf1"}
 	}
@@ -91,11 +128,25 @@ func genRun(r *rand.Rand, sandbox bool, first bool) *Case {
 		execBudget = 3 // refused anyway
 	}
 	n := 3 + r.Intn(6)
-	cls := func() string {
+	cls0 := func() string {
 		if r.Intn(3) == 0 {
 			return "computed"
 		}
 		return "lit"
+	}
+	// how the name n is written: a file in the spelling of this run
+	clsOf := func(n string) string {
+		if sp := spell[n]; sp != "" {
+			return sp
+		}
+		return cls0()
+	}
+	// the shape of a payload (newlines only in the default output mode)
+	shape := func(form string) string {
+		if sandbox || c.Cfg.OMode != "default" || form == "print2" || r.Intn(2) == 0 {
+			return ""
+		}
+		return pick(r, "nl", "mid", "mid", "midnl", "crlf", "crlf")
 	}
 	form := func() string {
 		if r.Intn(4) == 0 {
@@ -117,21 +168,25 @@ func genRun(r *rand.Rand, sandbox bool, first bool) *Case {
 		switch k := r.Intn(100); {
 		case k < 20:
 			a = Act{Op: "print", Dest: "stdout", Mode: "none", Form: stdoutForm(), Cls: "lit"}
+			a.Shape = shape(a.Form)
 		case k < 40:
 			if len(outFiles) == 0 {
 				continue
 			}
-			a = Act{Op: "print", Dest: "file", Name: pick(r, outFiles...), Mode: pick(r, "trunc", "append"), Form: form(), Cls: cls()}
+			a = Act{Op: "print", Dest: "file", Name: pick(r, outFiles...), Mode: pick(r, "trunc", "append"), Form: form()}
+			a.Cls, a.Shape = clsOf(a.Name), shape(a.Form)
 		case k < 46:
 			if c.Cfg.NW {
 				continue
 			}
-			a = Act{Op: "print", Dest: "file", Name: pick(r, "-", "/dev/stdout", "/dev/stderr"), Mode: pick(r, "trunc", "append"), Form: form(), Cls: cls()}
+			a = Act{Op: "print", Dest: "file", Name: pick(r, "-", "/dev/stdout", "/dev/stderr"), Mode: pick(r, "trunc", "append"), Form: form(), Cls: cls0()}
+			a.Shape = shape(a.Form)
 		case k < 54:
 			if len(outCmds) == 0 || execBudget == 0 {
 				continue
 			}
-			a = Act{Op: "print", Dest: "cmd", Name: pick(r, outCmds...), Mode: "pipe", Form: form(), Cls: cls()}
+			a = Act{Op: "print", Dest: "cmd", Name: pick(r, outCmds...), Mode: "pipe", Form: form(), Cls: cls0()}
+			a.Shape = shape(a.Form)
 			if a.Name == "exit3" {
 				if exit3Broken {
 					continue
@@ -139,7 +194,8 @@ func genRun(r *rand.Rand, sandbox bool, first bool) *Case {
 				exit3Open, exit3Dirty = true, true
 			}
 		case k < 68:
-			a = Act{Op: "close", Name: pick(r, "f1", "f2", "f3", "cat", "cat3", "exit3"), Cls: cls()}
+			a = Act{Op: "close", Name: pick(r, "f1", "f2", "f3", "cat", "cat3", "exit3", "/dev/null", "spcat")}
+			a.Cls = clsOf(a.Name)
 			if a.Name == "exit3" {
 				if dir["exit3"] != "out" {
 					continue
@@ -148,6 +204,9 @@ func genRun(r *rand.Rand, sandbox bool, first bool) *Case {
 			}
 		case k < 76:
 			a = Act{Op: "fflush", Name: pick(r, "", "", "f1", "f2", "cat", "cat3"), Cls: "lit"}
+			if sp := spell[a.Name]; sp != "" {
+				a.Cls = sp
+			}
 			if dir["exit3"] == "out" && r.Intn(4) == 0 {
 				a.Name = "exit3"
 			}
@@ -158,7 +217,7 @@ func genRun(r *rand.Rand, sandbox bool, first bool) *Case {
 			if execBudget == 0 {
 				continue
 			}
-			a = Act{Op: "system", Name: pick(r, sysCmds...), Cls: cls()}
+			a = Act{Op: "system", Name: pick(r, sysCmds...), Cls: cls0()}
 			execBudget--
 			if exit3Open && exit3Dirty {
 				exit3Dirty, exit3Broken = false, true // system() flushes every stream
@@ -168,12 +227,12 @@ func genRun(r *rand.Rand, sandbox bool, first bool) *Case {
 			if len(inFiles) > 0 && r.Intn(5) > 0 {
 				nm = pick(r, inFiles...)
 			}
-			a = Act{Op: "getline_file", Name: nm, Cls: cls()}
+			a = Act{Op: "getline_file", Name: nm, Cls: clsOf(nm)}
 		default:
 			if len(inCmds) == 0 || execBudget == 0 {
 				continue
 			}
-			a = Act{Op: "getline_cmd", Name: pick(r, inCmds...), Cls: cls()}
+			a = Act{Op: "getline_cmd", Name: pick(r, inCmds...), Cls: cls0()}
 		}
 		if a.Op == "print" && a.Dest == "cmd" || a.Op == "getline_cmd" {
 			// a new process only when the name is not open; count pessimistically
@@ -185,15 +244,33 @@ func genRun(r *rand.Rand, sandbox bool, first bool) *Case {
 		c.Acts = append(c.Acts, a)
 	}
 	switch k := r.Intn(100); {
-	case k < 20:
-		// operand: a file that exists and is never written in this run, or stdin
-		cand := []string{"-"}
-		for _, f := range c.Cfg.Pre {
+	case k < 24:
+		// operands: up to two that are not files, then stdin, a file that is never written in this run (existing or
+		// not), the directory, /dev/null -- or nothing more (the standard input is the main input then)
+		nskip := 0
+		if r.Intn(3) == 0 {
+			nskip = 1 + r.Intn(2)
+		}
+		for j := 0; j < nskip; j++ {
+			c.Acts = append(c.Acts, Act{Op: "operand", Name: pick(r, "", "v=1"), Cls: pick(r, "lit", "lit", "computed")})
+		}
+		cand := []string{"-", "d1"}
+		for _, f := range FileNames {
 			if dir[f] == "in" {
 				cand = append(cand, f)
 			}
 		}
-		c.Acts = append(c.Acts, Act{Op: "operand", Name: pick(r, cand...), Cls: "lit"})
+		if dir["/dev/null"] == "in" {
+			cand = append(cand, "/dev/null")
+		}
+		if nskip == 0 || r.Intn(3) > 0 {
+			nm := pick(r, cand...)
+			cl := pick(r, "lit", "lit", "computed") // computed: appended to ARGV by the program
+			if sp := spell[nm]; sp != "" {
+				cl = sp
+			}
+			c.Acts = append(c.Acts, Act{Op: "operand", Name: nm, Cls: cl})
+		}
 	case k < 35:
 		c.Acts = append(c.Acts, Act{Op: "exit"})
 	case k < 50:
@@ -201,6 +278,9 @@ func genRun(r *rand.Rand, sandbox bool, first bool) *Case {
 	}
 	return c
 }
+
+// traceKind: the newer dimension an action exercises, as part of the operation name of a rejected trace
+func traceKind(a Act) string { return strings.ReplaceAll(argKind(a), "/", "-") }
 
 func emptyIfNil[T any](x []T) []T {
 	if x == nil {
@@ -232,10 +312,18 @@ func runEvents(c *Case, obs *Obs, cont bool) []map[string]any {
 		if a.Op == "operand" || a.Op == "finish" {
 			// no statement of its own in BEGIN: everything left over belongs to it
 			if a.Op == "operand" && done == k {
+				if a.Name == "" || a.Name == "v=1" {
+					// not a file: nothing is opened for it, nothing is read through it (when no file operand follows,
+					// what the main loop reads from the standard input belongs to the end of the run)
+					emit(map[string]any{"ev": "step", "act": actMap(a),
+						"obs": map[string]any{"custom": c.Cfg.Custom, "opens": []Open{}, "notes": noteMaps(nil)}})
+					last = opName(a) + traceKind(a)
+					continue
+				}
 				emit(map[string]any{"ev": "step", "act": actMap(a),
 					"obs": map[string]any{"custom": c.Cfg.Custom, "opens": emptyIfNil(obs.Opens[po:]), "notes": noteMaps(obs.Notes[pn:])}})
 				po, pn = len(obs.Opens), len(obs.Notes)
-				last = opName(a)
+				last = opName(a) + traceKind(a)
 			}
 			continue
 		}
@@ -244,7 +332,7 @@ func runEvents(c *Case, obs *Obs, cont bool) []map[string]any {
 			emit(map[string]any{"ev": "step", "act": actMap(a),
 				"obs": map[string]any{"custom": c.Cfg.Custom, "opens": emptyIfNil(obs.Opens[po:m.Opens]), "notes": noteMaps(obs.Notes[pn:m.Notes])}})
 			po, pn = m.Opens, m.Notes
-			last = opName(a)
+			last = opName(a) + traceKind(a)
 			k++
 			continue
 		}
@@ -252,7 +340,7 @@ func runEvents(c *Case, obs *Obs, cont bool) []map[string]any {
 		emit(map[string]any{"ev": "step", "act": actMap(a),
 			"obs": map[string]any{"custom": c.Cfg.Custom, "opens": emptyIfNil(obs.Opens[po:]), "notes": noteMaps(obs.Notes[pn:])}})
 		po, pn = len(obs.Opens), len(obs.Notes)
-		last = opName(a)
+		last = opName(a) + traceKind(a)
 		break
 	}
 	files := map[string]any{}
